@@ -25,6 +25,7 @@ def run(ctx):
     r1_effects(ctx)
     r2_time_guard(ctx)
     r3_intervals(ctx)
+    r3_reservoir_index(ctx)
     r4_consumers(ctx)
 
 
@@ -421,6 +422,33 @@ def _is_swap(st):
     return unparse(t[0].slice) == unparse(v[1].slice) and unparse(t[1].slice) == unparse(v[0].slice) and unparse(t[0].slice) != unparse(t[1].slice)
 
 
+def r3_reservoir_index(ctx):
+    """pipes.Reservoir replaces reservoir[int(r3*count)] with r3 a uniform in [0,1): the index must lie in [0, count-1]
+    where the reservoir holds exactly `count` items in that branch."""
+    PF = "coba/pipes/filters.py"
+    fn = ctx.fn(PF, "Reservoir.filter")
+    sym = Sym.var
+    stores = [x for x in ast.walk(fn) if isinstance(x, ast.Assign) and isinstance(x.targets[0], ast.Subscript)
+              and any(isinstance(c, ast.Call) and call_name(c) in ("int", "floor", "math.floor") for c in ast.walk(x.targets[0].slice))]
+    ctx.floor("C05.R3", "reservoir replacement sites", len(stores), 1)
+    for st in stores:
+        idx = st.targets[0].slice
+        lp = next((a for a in ancestors(st) if isinstance(a, ast.For)), None)
+        uni = unparse(lp.target.elts[-1]) if lp is not None and isinstance(lp.target, ast.Tuple) else None
+        CNT = name_bound(fn, lambda v: unparse(v) == "self._count or 1", "count")
+        env = {CNT: Itv(sym("count"), sym("count"), integer=True)}
+        if uni:
+            env[uni] = U()
+        A = Abs(env, positive=[sym("count")], nonneg=[])
+        ok, d = A.check(idx, Sym(0), sym("count") - 1)
+        # the uniforms come from rng.randoms(...) (range [0,1) by the randoms obligation above) and the reservoir has `count` slots
+        src_ok = lp is not None and "batched_randoms_forever" in unparse(lp.iter) and "rng.randoms(" in unparse(fn)
+        size_ok = any(isinstance(x, ast.If) and unparse(x.test) == "len(reservoir) < self._count" for x in ast.walk(fn)) or \
+            any(isinstance(x, ast.If) and "< self._count" in unparse(x.test) for x in ast.walk(fn))
+        ctx.ob("C05.R3", PF, "Reservoir.filter", st, "the replaced reservoir slot int(u*count) lies in [0, count-1] for u in [0,1)", ok and src_ok and size_ok,
+               detail={"index": d, "uniform_from_randoms": src_ok, "reservoir_full_in_this_branch": size_ok})
+
+
 def _randoms_shape(fn):
     """out = self._randu; if diff != 1: out = map(diff.__mul__, out); if min != 0: out = map(min.__add__, out);
     return list(islice(out, n)).  Each skipped map is the identity under its guard, so the element is min + diff*U."""
@@ -545,6 +573,7 @@ def r4_consumers(ctx, rule="C05.R4"):
 
 
 CONTROLS = [
+    ("reservoir index off by one", "coba/pipes/filters.py", M.replace_expr("Reservoir.filter", "int(r3 * count)", "int(r3 * count) + 1"), "C05.R3"),
     ("module state in method", RND, M.replace_expr("CobaRandom.random", "next(self._randu)", "next(_random._randu)"), "C05.R1"),
     ("randint b-a+2", RND, M.replace_expr("CobaRandom.randint", "b - a + 1", "b - a + 2"), "C05.R3"),
     ("choice index +1", RND, M.replace_expr("CobaRandom.choice", "int(len(seq) * next(self._randu))", "int(len(seq) * next(self._randu)) + 1"), "C05.R3"),
